@@ -1,6 +1,6 @@
 (* Correspondence checker for the S-wire / S-req slices: real clients and the real
    OrdaService (over the in-memory store) against Wire.v + Server.v. *)
-From Orda.Model Require Import Base Time Ops Counter Map List Datatype Replicas CheckCrdt Server Wire Net.
+From Orda.Model Require Import Base Time Ops Counter Map List Snapshot Datatype Replicas CheckCrdt Server SnapSrv Wire Net.
 Open Scope N_scope.
 
 Definition cp_eq := cp_eqb.
@@ -23,7 +23,21 @@ Definition odig_eqb (a b : odig) : bool :=
   let '(d1, c1, s1, i1) := a in let '(d2, c2, s2, i2) := b in
   str_eqb d1 d2 && N.eqb c1 c2 && N.eqb s1 s2 && opid_eqb i1 i2.
 
-Record dbdig := mkDbdig { g_dts : list ddoc; g_ops : list odig }.
+Record dbdig := mkDbdig { g_dts : list ddoc; g_ops : list odig;
+                          g_snaps : list snapdoc;          (* -_-Snapshots, insertion order *)
+                          g_real : list realdoc;           (* the user collections *)
+                          g_snapchk : bool }.              (* false: a storage fault hit the snapshot update itself *)
+Definition snapdoc_eqb (a b : snapdoc) : bool :=
+  str_eqb (sn_duid a) (sn_duid b) && N.eqb (sn_col a) (sn_col b) && N.eqb (sn_sseq a) (sn_sseq b) && jsnap_eqb (sn_snap a) (sn_snap b).
+Definition realdoc_eqb (a b : realdoc) : bool :=
+  str_eqb (rl_col a) (rl_col b) && str_eqb (rl_key a) (rl_key b) && val_eqb (rl_view a) (rl_view b) && N.eqb (rl_ver a) (rl_ver b).
+Definition same_set {A} (eqb : A -> A -> bool) (a b : list A) : bool :=
+  Nat.eqb (length a) (length b) && forallb (fun x => existsb (eqb x) b) a.
+Definition ss_matches (ss : snapstore) (g : dbdig) : bool :=
+  negb (g_snapchk g) || (list_eqb snapdoc_eqb (ss_snaps ss) (g_snaps g) && same_set realdoc_eqb (ss_real ss) (g_real g)).
+(* after a storage fault inside the snapshot update the run continues from the store as observed *)
+Definition ss_adopt (ss : snapstore) (g : dbdig) : snapstore :=
+  if g_snapchk g then ss else mkSnapstore (g_snaps g) (g_real g).
 Definition db_matches (db : sdb) (g : dbdig) : bool :=
   list_eqb ddoc_eqb (s_dts db) (g_dts g) && list_eqb odig_eqb (map odig_of (s_ops db)) (g_ops g).
 
@@ -44,8 +58,20 @@ Section Check.
   Variable k_size : St -> Z.
   Variable k_res : ret -> res.
   Variable k_type : N.
+  Variable k_marshal : St -> jsnap.
+  Variable k_unmarshal : jsnap -> St.
 
   Notation wdty := (@wdt St call J).
+  (* the world checks one kernel: datatypes of another type (a request may name any type) are left out of the comparison *)
+  Definition after_pack (db' : sdb) (ss : snapstore) (colname : str) (pubs : list publish) : snapstore :=
+    match pubs with
+    | p :: _ => match find_dt db' (pb_duid p) with
+                | Some d => if N.eqb (dd_type d) k_type
+                            then SnapSrv.after_pack St k_init k_remote k_marshal k_unmarshal k_view db' ss colname pubs else ss
+                | None => ss
+                end
+    | [] => ss
+    end.
 
   (* what the client reports after applying a response *)
   Record aobs := mkAobs { ao_err : option N; ao_state_change : bool; ao_subscribed : bool;
@@ -61,12 +87,13 @@ Section Check.
   | WSyncRpc (di : nat) (f : fault) (req : ppp) (rpc : N) (g : dbdig)                 (* the exchange ended in an RPC error *)
   | WApply (di : nat) (resp : ppp) (a : aobs)                                    (* a held-back or second response is applied *)
   | WRaw (col cuid : str) (req resp : ppp) (g : dbdig) (pubs : list publish)     (* a mutated request, response not applied *)
-  | WRawErr (col cuid : str) (req : ppp) (rpc : N) (g : dbdig).                  (* refused by ProcessPushPull itself *)
+  | WRawErr (col cuid : str) (req : ppp) (rpc : N) (g : dbdig)                   (* refused by ProcessPushPull itself *)
+  | WSnapUpd (col : str) (d : ddoc) (g : dbdig).          (* UpdateSnapshot runs (again) with a datatype document captured earlier *)
 
-  Record wsys := mkWsys { ws_db : sdb; ws_dts : list (str * str * wdty) }.    (* (collection, cuid, datatype) *)
+  Record wsys := mkWsys { ws_db : sdb; ws_dts : list (str * str * wdty); ws_ss : snapstore }.    (* (collection, cuid, datatype) *)
 
   Definition set_dt (s : wsys) (di : nat) (x : str * str * wdty) : wsys :=
-    mkWsys (ws_db s) (firstn di (ws_dts s) ++ x :: skipn (Datatypes.S di) (ws_dts s)).
+    mkWsys (ws_db s) (firstn di (ws_dts s) ++ x :: skipn (Datatypes.S di) (ws_dts s)) (ws_ss s).
 
   Definition mode_state (m : N) : dstate :=
     match m with 0 => DueToCreate | 1 => DueToSubscribe | _ => DueToSubscribeCreate end.
@@ -84,12 +111,12 @@ Section Check.
 
   Definition wstep (s : wsys) (e : wev) : option wsys :=
     match e with
-    | WCollection name => Some (mkWsys (create_collection (ws_db s) name) (ws_dts s))
+    | WCollection name => Some (mkWsys (create_collection (ws_db s) name) (ws_dts s) (ws_ss s))
     | WClient col cuid err =>
         let '(db', r) := process_client (ws_db s) col cuid in
-        if opt_eqb N.eqb (option_map rpc_code r) err then Some (mkWsys db' (ws_dts s)) else None
+        if opt_eqb N.eqb (option_map rpc_code r) err then Some (mkWsys db' (ws_dts s) (ws_ss s)) else None
     | WNewDt col cuid mode duid key =>
-        Some (mkWsys (ws_db s) (ws_dts s ++ [(col, cuid, w_new St call J k_init k_export (mode_state mode) cuid duid key)]))
+        Some (mkWsys (ws_db s) (ws_dts s ++ [(col, cuid, w_new St call J k_init k_export (mode_state mode) cuid duid key)]) (ws_ss s))
     | WLocal di c o view size =>
         match nth_error (ws_dts s) di with
         | Some (col, cuid, w) =>
@@ -112,8 +139,10 @@ Section Check.
             if negb (ppp_eqb (mkpack St call J k_type w) req) then None else
             match exchange St call J k_init k_remote k_export k_type (ws_db s) col cuid w f with
             | XOk db' mresp mpubs w' ap =>
-                if ppp_eqb mresp resp && db_matches db' g && list_eqb pub_eqb mpubs pubs && aobs_ok w' ap a
-                then Some (set_dt (mkWsys db' (ws_dts s)) di (col, cuid, w')) else None
+                (* post-response work: one snapshot update per handling that stored operations *)
+                let ss' := after_pack db' (ws_ss s) col mpubs in
+                if ppp_eqb mresp resp && db_matches db' g && list_eqb pub_eqb mpubs pubs && aobs_ok w' ap a && ss_matches ss' g
+                then Some (set_dt (mkWsys db' (ws_dts s) (ss_adopt ss' g)) di (col, cuid, w')) else None
             | _ => None
             end
         | None => None
@@ -123,7 +152,7 @@ Section Check.
         | Some (col, cuid, w) =>
             if negb (ppp_eqb (mkpack St call J k_type w) req) then None else
             match exchange St call J k_init k_remote k_export k_type (ws_db s) col cuid w f with
-            | XRpc db' e => if N.eqb (rpc_code e) rpc && db_matches db' g then Some (mkWsys db' (ws_dts s)) else None
+            | XRpc db' e => if N.eqb (rpc_code e) rpc && db_matches db' g then Some (mkWsys db' (ws_dts s) (ws_ss s)) else None
             | _ => None
             end
         | None => None
@@ -140,15 +169,20 @@ Section Check.
     | WRaw col cuid req resp g pubs =>
         match process_pushpull (ws_db s) col cuid [req] with
         | (db', inl [(mresp, mpubs)]) =>
-            if ppp_eqb mresp resp && db_matches db' g && list_eqb pub_eqb mpubs pubs
-            then Some (mkWsys db' (ws_dts s)) else None
+            let ss' := after_pack db' (ws_ss s) col mpubs in
+            if ppp_eqb mresp resp && db_matches db' g && list_eqb pub_eqb mpubs pubs && ss_matches ss' g
+            then Some (mkWsys db' (ws_dts s) (ss_adopt ss' g)) else None
         | _ => None
         end
     | WRawErr col cuid req rpc g =>
         match process_pushpull (ws_db s) col cuid [req] with
-        | (db', inr e) => if N.eqb (rpc_code e) rpc && db_matches db' g then Some (mkWsys db' (ws_dts s)) else None
+        | (db', inr e) => if N.eqb (rpc_code e) rpc && db_matches db' g then Some (mkWsys db' (ws_dts s) (ws_ss s)) else None
         | _ => None
         end
+    | WSnapUpd col d g =>
+        let ss' := if N.eqb (dd_type d) k_type
+                   then update_snapshot St k_init k_remote k_marshal k_unmarshal k_view (ws_db s) (ws_ss s) col d else ws_ss s in
+        if db_matches (ws_db s) g && ss_matches ss' g then Some (mkWsys (ws_db s) (ws_dts s) (ss_adopt ss' g)) else None
     end.
 
   Fixpoint wrun (s : wsys) (es : list wev) (i : nat) : option (nat * wsys) :=
@@ -157,13 +191,13 @@ Section Check.
     | e :: es' => match wstep s e with Some s' => wrun s' es' (Datatypes.S i) | None => Some (i, s) end
     end.
   Definition check_whist (es : list wev) : bool :=
-    match wrun (mkWsys sdb_init []) es 0%nat with None => true | Some _ => false end.
+    match wrun (mkWsys sdb_init [] snapstore_init) es 0%nat with None => true | Some _ => false end.
 
   (* diagnosis: index of the first mismatching event and what the model has at that point *)
   Record wdiag := mkWdiag { wd_index : nat; wd_req : option ppp; wd_resp : option ppp; wd_dts : list ddoc;
-                            wd_ops : list odig; wd_pubs : list publish; wd_client : option (cp * str * val * bool) }.
+                            wd_ops : list odig; wd_pubs : list publish; wd_client : option (cp * str * val * bool); wd_ss : snapstore }.
   Definition explain_whist (es : list wev) : option wdiag :=
-    match wrun (mkWsys sdb_init []) es 0%nat with
+    match wrun (mkWsys sdb_init [] snapstore_init) es 0%nat with
     | None => None
     | Some (i, s) =>
         match nth_error es i with
@@ -176,17 +210,17 @@ Section Check.
                     let cl := match apply_pack St call J k_init k_remote k_export w mresp with
                               | AOk _ _ _ w' ap => Some (d_cp (w_d w'), w_duid w', k_view (d_snap (w_d w')), a_state_change ap)
                               | APanic _ _ _ => None end in
-                    Some (mkWdiag i (Some mreq) (Some mresp) (s_dts db') (map odig_of (s_ops db')) mpubs cl)
-                | (db', _) => Some (mkWdiag i (Some mreq) None (s_dts db') (map odig_of (s_ops db')) [] None)
+                    Some (mkWdiag i (Some mreq) (Some mresp) (s_dts db') (map odig_of (s_ops db')) mpubs cl (after_pack db' (ws_ss s) col mpubs))
+                | (db', _) => Some (mkWdiag i (Some mreq) None (s_dts db') (map odig_of (s_ops db')) [] None (ws_ss s))
                 end
-            | None => Some (mkWdiag i None None [] [] [] None)
+            | None => Some (mkWdiag i None None [] [] [] None (ws_ss s))
             end
         | Some (WRaw col cuid req resp g pubs) =>
             match process_pushpull (ws_db s) col cuid [req] with
-            | (db', inl [(mresp, mpubs)]) => Some (mkWdiag i (Some req) (Some mresp) (s_dts db') (map odig_of (s_ops db')) mpubs None)
-            | (db', _) => Some (mkWdiag i (Some req) None (s_dts db') (map odig_of (s_ops db')) [] None)
+            | (db', inl [(mresp, mpubs)]) => Some (mkWdiag i (Some req) (Some mresp) (s_dts db') (map odig_of (s_ops db')) mpubs None (after_pack db' (ws_ss s) col mpubs))
+            | (db', _) => Some (mkWdiag i (Some req) None (s_dts db') (map odig_of (s_ops db')) [] None (ws_ss s))
             end
-        | _ => Some (mkWdiag i None None (s_dts (ws_db s)) (map odig_of (s_ops (ws_db s))) [] None)
+        | _ => Some (mkWdiag i None None (s_dts (ws_db s)) (map odig_of (s_ops (ws_db s))) [] None (ws_ss s))
         end
     end.
 End Check.
@@ -201,16 +235,17 @@ Arguments WRaw {call}.
 Arguments WApply {call}.
 Arguments WSyncRpc {call}.
 Arguments WRawErr {call}.
+Arguments WSnapUpd {call}.
 
 Definition check_wire_counter : list (wev ccall) -> bool :=
-  check_whist cstate ccall val cstate c_init c_validate c_local' c_exec_remote id_ id_ c_view (fun s => s) RVal 0.
+  check_whist cstate ccall val cstate c_init c_validate c_local' c_exec_remote id_ id_ c_view (fun s => s) RVal 0 c_marshal c_unmarshal.
 Definition explain_wire_counter :=
-  explain_whist cstate ccall val cstate c_init c_validate c_local' c_exec_remote id_ id_ c_view (fun s => s) RVal 0.
+  explain_whist cstate ccall val cstate c_init c_validate c_local' c_exec_remote id_ id_ c_view (fun s => s) RVal 0 c_marshal c_unmarshal.
 Definition check_wire_map : list (wev mcall) -> bool :=
-  check_whist mstate mcall (option val) mstate m_init m_validate m_local' m_exec_remote id_ id_ m_view m_size m_res 1.
+  check_whist mstate mcall (option val) mstate m_init m_validate m_local' m_exec_remote id_ id_ m_view m_size m_res 1 m_marshal m_unmarshal.
 Definition explain_wire_map :=
-  explain_whist mstate mcall (option val) mstate m_init m_validate m_local' m_exec_remote id_ id_ m_view m_size m_res 1.
+  explain_whist mstate mcall (option val) mstate m_init m_validate m_local' m_exec_remote id_ id_ m_view m_size m_res 1 m_marshal m_unmarshal.
 Definition check_wire_list : list (wev lcall) -> bool :=
-  check_whist lstate lcall (list val) lstate l_init l_validate l_local' l_exec_remote id_ id_ l_view l_size RVals 2.
+  check_whist lstate lcall (list val) lstate l_init l_validate l_local' l_exec_remote id_ id_ l_view l_size RVals 2 l_marshal l_unmarshal.
 Definition explain_wire_list :=
-  explain_whist lstate lcall (list val) lstate l_init l_validate l_local' l_exec_remote id_ id_ l_view l_size RVals 2.
+  explain_whist lstate lcall (list val) lstate l_init l_validate l_local' l_exec_remote id_ id_ l_view l_size RVals 2 l_marshal l_unmarshal.
